@@ -1,8 +1,10 @@
 use crate::framework::Cfg;
+pub mod c12;
 pub mod c16;
 
 pub fn dispatch(cfg: &Cfg) -> i32 {
     match cfg.prop.as_str() {
+        "C12" => c12::run(cfg),
         "C16" => c16::run(cfg),
         p => {
             eprintln!("no check for property {p}");
